@@ -64,6 +64,30 @@ impl Ir {
         c.curve_type = self.curve_type;
         c
     }
+    /// the calculator inputs of a REAL bank configuration and group (inverse of `config()` / `group()`)
+    pub fn from_real(c: &InterestRateConfig, g: &MarginfiGroup) -> Ir {
+        let bits = |v: marginfi_type_crate::types::WrappedI80F48| I80F48::from(v).to_bits();
+        let mut pts = [(0u32, 0u32); 5];
+        for i in 0..5 {
+            pts[i] = (c.points[i].util, c.points[i].rate);
+        }
+        Ir {
+            optimal: bits(c.optimal_utilization_rate),
+            plateau: bits(c.plateau_interest_rate),
+            max_ir: bits(c.max_interest_rate),
+            ins_fixed: bits(c.insurance_fee_fixed_apr),
+            ins_rate: bits(c.insurance_ir_fee),
+            grp_fixed: bits(c.protocol_fixed_fee_apr),
+            grp_rate: bits(c.protocol_ir_fee),
+            prog_fixed: bits(g.fee_state_cache.program_fee_fixed),
+            prog_rate: bits(g.fee_state_cache.program_fee_rate),
+            add_prog: g.program_fees_enabled(),
+            zero: c.zero_util_rate,
+            hundred: c.hundred_util_rate,
+            pts,
+            curve_type: c.curve_type,
+        }
+    }
     pub fn group(&self) -> MarginfiGroup {
         let mut g = MarginfiGroup::default();
         g.set_program_fee_enabled(self.add_prog);
